@@ -1,0 +1,92 @@
+//go:build verif
+
+package stage
+
+import (
+	"context"
+	"sync"
+	"time"
+
+	"github.com/lindb/common/models"
+
+	"github.com/lindb/lindb/internal/concurrent"
+	"github.com/lindb/lindb/internal/linmetric"
+	"github.com/lindb/lindb/metrics"
+)
+
+// VerifScript describes a scripted stage which runs on top of the real baseStage
+// (verification harness only, build tag verif).
+type VerifScript struct {
+	ID           string
+	Async        bool
+	PlanFn       func() PlanNode
+	Next         func() []Stage
+	OnIdentifier func()
+	OnComplete   func()
+	Wrap         func(complete func(), fail func(err error)) (func(), func(err error))
+}
+
+type verifStage struct {
+	baseStage
+	script *VerifScript
+}
+
+var (
+	verifPool     concurrent.Pool
+	verifPoolOnce sync.Once
+)
+
+func verifGetPool() concurrent.Pool {
+	verifPoolOnce.Do(func() {
+		verifPool = concurrent.NewPool("verif", 16, time.Second,
+			metrics.NewConcurrentStatistics("verif", linmetric.StorageRegistry))
+	})
+	return verifPool
+}
+
+// NewVerifStage creates a scripted stage, Execute is the real baseStage.Execute.
+func NewVerifStage(ctx context.Context, script *VerifScript) Stage {
+	s := &verifStage{script: script}
+	s.ctx = ctx
+	s.stageType = Unknown
+	if script.Async {
+		s.execPool = verifGetPool()
+	}
+	return s
+}
+
+func (s *verifStage) Identifier() string {
+	if s.script.OnIdentifier != nil {
+		s.script.OnIdentifier()
+	}
+	return s.script.ID
+}
+
+func (s *verifStage) Plan() PlanNode {
+	if s.script.PlanFn != nil {
+		return s.script.PlanFn()
+	}
+	return nil
+}
+
+func (s *verifStage) NextStages() []Stage {
+	if s.script.Next != nil {
+		return s.script.Next()
+	}
+	return nil
+}
+
+func (s *verifStage) Complete() {
+	if s.script.OnComplete != nil {
+		s.script.OnComplete()
+	}
+}
+
+func (s *verifStage) Stats() []*models.OperatorStats { return nil }
+
+func (s *verifStage) Execute(node PlanNode, completeHandle func(), errHandle func(err error)) {
+	if s.script.Wrap != nil {
+		completeHandle, errHandle = s.script.Wrap(completeHandle, errHandle)
+	}
+	s.baseStage.Execute(node, completeHandle, errHandle)
+}
